@@ -51,7 +51,7 @@ type clientPeer struct {
 	desc    *description.Session
 	rec     *Rec // non-nil: this is the client under test, log its callbacks
 	packets atomic.Int64
-	ports   map[int]bool // local ports of the sockets this client opened
+	ports   map[string]bool // local ports of the sockets this client opened
 	pmu     sync.Mutex
 	stalled *atomic.Bool // non-nil: the peer stops reading its TCP connection when set
 	sndbuf  int
@@ -87,19 +87,19 @@ func (s *stallConn) Close() error {
 	return s.Conn.Close()
 }
 
-func (p *clientPeer) addPort(port int) {
+func (p *clientPeer) addPort(proto string, port int) {
 	p.pmu.Lock()
 	if p.ports == nil {
-		p.ports = map[int]bool{}
+		p.ports = map[string]bool{}
 	}
-	p.ports[port] = true
+	p.ports[fmt.Sprintf("%s:%d", proto, port)] = true
 	p.pmu.Unlock()
 }
 
-func (p *clientPeer) portSet() map[int]bool {
+func (p *clientPeer) portSet() map[string]bool {
 	p.pmu.Lock()
 	defer p.pmu.Unlock()
-	m := map[int]bool{}
+	m := map[string]bool{}
 	for k := range p.ports {
 		m[k] = true
 	}
@@ -131,13 +131,13 @@ func (p *clientPeer) init(readTimeout, writeTimeout time.Duration) {
 		if p.sndbuf > 0 {
 			nc.(*net.TCPConn).SetWriteBuffer(p.sndbuf)
 		}
-		p.addPort(nc.LocalAddr().(*net.TCPAddr).Port)
+		p.addPort("tcp", nc.LocalAddr().(*net.TCPAddr).Port)
 		return &stallConn{Conn: nc, stalled: p.stalled, closed: make(chan struct{})}, nil
 	}
 	p.c.ListenPacket = func(network, address string) (net.PacketConn, error) {
 		pc, err := net.ListenPacket(network, address)
 		if err == nil {
-			p.addPort(pc.LocalAddr().(*net.UDPAddr).Port)
+			p.addPort("udp", pc.LocalAddr().(*net.UDPAddr).Port)
 		}
 		return pc, err
 	}
